@@ -358,6 +358,8 @@ pub struct RnV {
     pub records: Vec<RecV>,
     #[serde(rename = "commitSince")]
     pub commit_since: u64,
+    /// number of the latest Ready with an unpersisted term/vote change (0 = none)
+    pub uhs: u64,
 }
 
 #[derive(Serialize, Deserialize, Clone, PartialEq, Eq, Debug, Default)]
@@ -508,7 +510,7 @@ pub fn project<T: Storage>(rn: &RawNode<T>) -> NodeView {
                 ctx: String::from_utf8_lossy(&s.request_ctx).into_owned(),
             })
             .collect(),
-        msgs: msgs_view(&r.msgs),
+        msgs: r.msgs.iter().map(msg_view).collect(),
         log: LogV {
             offset: log.unstable.offset,
             uents: log.unstable.entries.iter().map(entry_view).collect(),
@@ -537,6 +539,7 @@ pub fn project<T: Storage>(rn: &RawNode<T>) -> NodeView {
                 })
                 .collect(),
             commit_since,
+            uhs: rn.verif_unpersisted_hs_number(),
         },
         usz: r.uncommitted_size() as u64,
         lti,
